@@ -314,23 +314,27 @@ def make_sigs(rng, fs, lo, hi, n):
     return out
 
 
-def group_case(sh, rng):
+def group_case(sh, rng, shape=None, axis='random', reduction='random'):
     """BycycleGroup: models mirror df_features and sigs position by position (2-D and 3-D), then recompute_edges."""
     from bycycle import BycycleGroup
     fs, lo, hi = gen.gen_config(rng, small=True)
-    three = rng.random() < 0.5
-    shape = (int(rng.integers(1, 4)), int(rng.integers(1, 4))) if three else (int(rng.integers(2, 5)),)
+    three = rng.random() < 0.5 if shape is None else len(shape) == 2
+    shape = ((int(rng.integers(1, 4)), int(rng.integers(1, 4))) if three else (int(rng.integers(2, 5)),)) if shape is None else tuple(shape)
     nsamp = int(fs * 2)
     rows = [gen.gen_signal(rng, fs, lo, hi, nsamp / fs, 'bursty')[0][:nsamp] + 1e-3 * i for i in range(int(np.prod(shape)))]
     sigs = np.array(rows).reshape(shape + (nsamp,))
     settings = gen_settings(rng, lo, 'cycles')
-    axis = ([0, 1, (0, 1)] if three else [0, None])[int(rng.integers(0, 3 if three else 2))]
+    axis_r = ([0, 1, (0, 1)] if three else [0, None])[int(rng.integers(0, 3 if three else 2))]
+    axis = axis_r if axis == 'random' else axis
     refit = None
     if rng.random() < 0.7:
         shape2 = (shape[0], int(rng.choice([m for m in (1, 2, 3) if len(shape) < 2 or m != shape[1]]))) if rng.random() < 0.7 else (int(rng.integers(2, 4)),)
         rows2 = [gen.gen_signal(rng, fs, lo, hi, nsamp / fs, 'bursty')[0][:nsamp] + 2e-3 * i for i in range(int(np.prod(shape2)))]
         refit = np.array(rows2).reshape(shape2 + (nsamp,))
-    case = {'group': True, 'sigs': sigs, 'fs': fs, 'f_range': (lo, hi), 'settings': settings, 'axis': axis, 'refit': refit}
+    case = {'group': True, 'sigs': sigs, 'fs': fs, 'f_range': (lo, hi), 'settings': settings, 'axis': axis, 'refit': refit,
+            'reduction': [None, 0.0, 0.1, 0.2][int(rng.integers(0, 4))] if reduction == 'random' else reduction}
+    if shape is not None and len(shape) == 2 and shape[0] != shape[1] and case['reduction'] is not None:
+        sh.note('group_3d_unequal_extents_with_recompute_edges')
     run_group(sh, case)
 
 
@@ -363,6 +367,38 @@ def run_group(sh, case, driver='group'):
             break
     if len(bg) != sigs.shape[0] or [id(x) for x in bg] != [id(x) for x in bg.models] or bg[0] is not bg.models[0]:
         vs.append({'mechanism': 'group-container-protocol', 'message': 'len/iter/getitem do not reflect models'})
+    # edge recomputation on the group: every model's table becomes the functional recomputation of ITS OWN fitted table
+    if not vs and case.get('reduction') is not None and Shadow(case['settings']).method == 'cycles':
+        from bycycle.burst import recompute_edges
+        sh_ = Shadow(case['settings'])
+        r = case['reduction']
+        before = {}
+        for ix in idx:
+            m = bg.models
+            for i in ix:
+                m = m[i]
+            before[ix] = m.df_features.copy(deep=True)
+        _, eo = outcome(lambda: bg.recompute_edges(r))
+        attach.count('eval:group_recompute_compared')
+        sh.note('group_recompute:%s' % (list(sigs.shape[:-1]),))
+        for ix in idx:
+            ref, er = outcome(lambda: recompute_edges(before[ix].copy(), sh_.reduced(r)))
+            if (eo is None) != (er is None):
+                vs.append({'mechanism': 'group-recompute-edges-outcome', 'message': 'BycycleGroup.recompute_edges(%r): %r, functional recomputation of models%s: %r'
+                                                                                    % (r, eo, list(ix), er)})
+                break
+            if eo is not None:
+                break
+            m = bg.models
+            for i in ix:
+                m = m[i]
+            d = poollog.tables_equal(m.df_features, ref)
+            if d is not None:
+                stale = poollog.tables_equal(m.df_features, before[ix]) is None
+                vs.append({'mechanism': 'group-recompute-edges-differs-from-functional',
+                           'message': 'after BycycleGroup.recompute_edges(%r) models%s differs from recompute_edges(fitted table, thresholds - r): %s%s'
+                                      % (r, list(ix), d, ' (it still holds the fitted table)' if stale else '')})
+                break
     # history on the group object: a second fit on an array of another shape must leave no trace of the first one
     if not vs and case.get('refit') is not None:
         sigs2 = np.asarray(case['refit'])
@@ -434,6 +470,10 @@ def run(sh):
     sh.exhaustive['histories_len<=%d_reduced_alphabet_both_methods' % L] = {'histories': tot}
     for it in range(3 if sh.tier == 'quick' else 40):
         guarded(sh, group_case, sh, rng)
+    # every shard: one 3-D group with unequal extents (and one 2-D group) followed by BycycleGroup.recompute_edges
+    cover = [(2, 3), (3, 2), (1, 3), (3, 1), (1, 2), (2, 1), (2, 3), (3, 2)]
+    guarded(sh, group_case, sh, rng, cover[sh.shard % len(cover)], [0, 1, (0, 1)][sh.shard % 3], [0.0, 0.1, 0.2][(sh.shard // 3) % 3])
+    guarded(sh, group_case, sh, rng, (2 + sh.shard % 3,), [0, None][sh.shard % 2], 0.1)
 
 
 def replay(sh, driver, case):
